@@ -16,7 +16,7 @@ func init() {
 	register(&Def{
 		ID:    "C10",
 		Level: "exploration",
-		Rule: "seeded histories of 50..2000 steps on one pool allocator (in half of the histories used through three copies of the allocator value made before its first use): get (up to 2..24 outstanding, per history; a third of the histories alternate bursts of gets with bursts of puts) / use {AppendSample x k, in-capacity Append, Write, WriteStriped, SetSample anywhere in the capacity through Slice(0,Capacity), same-type conversion into the buffer} / put of the buffer itself or of Slice(0,n) of it (each checkout put at most once) / forced double GC / get-fill-put cycles on a second pool of the same element type (where possible with another channel count and the same total length and capacity); all 13 built-in and 13 named element types; allocators with Length 0, 0<Length<Capacity, Length=Capacity and 1..8 channels; run in the plain build (sync.Pool hands a just-Put object back) and under -race (sync.Pool then drops a random quarter of the Puts); " +
+		Rule: "seeded histories of 50..2000 steps on one pool allocator (in half of the histories used through three copies of the allocator value made before its first use): get (up to 2..24 outstanding, per history; a third of the histories alternate bursts of gets with bursts of puts) / use {AppendSample x k, in-capacity Append, a growing Append after a view from frame 0 was taken (the view stays checked out, the grown buffer stays private), Write, WriteStriped, SetSample anywhere in the capacity through Slice(0,Capacity), same-type conversion into the buffer} / put of the buffer itself or of Slice(0,n) of it (each checkout put at most once) / forced double GC / get-fill-put cycles on a second pool of the same element type (where possible with another channel count and the same total length and capacity); all 13 built-in and 13 named element types; allocators with Length 0, 0<Length<Capacity, Length=Capacity and 1..8 channels; run in the plain build (sync.Pool hands a just-Put object back) and under -race (sync.Pool then drops a random quarter of the Puts); " +
 			"every Get result is compared with a fresh allocation (shape, bit depth, zero over the whole capacity through the hook) and its address interval with those of all outstanding buffers; every outstanding buffer's contents are re-verified after every step; " +
 			"distinct = distinct histories (hash of allocator + operation list); non-trivial = the history contains a Get that returned a previously Put object (identity by pinned header or storage address)",
 		Assume: []string{"which object a Get returns is not asserted, only counted (reuse floor)", "every buffer ever seen is pinned so that addresses are never recycled by the Go allocator"},
@@ -114,6 +114,7 @@ func c10History(c *core.Ctx, r *core.Rand, t *dyn.TypeOps, al signal.Allocator, 
 	pair := t.SelfPair
 	conv := sameTypeConv(t)
 	var out []*c10out
+	var private []*c10out // buffers that moved away from pool storage by a growing Append and stay with their holder
 	var pins []dyn.Buf // everything ever seen: addresses cannot be recycled
 	putHdr := map[uintptr]bool{}
 	putBase := map[uintptr]bool{}
@@ -149,6 +150,18 @@ func c10History(c *core.Ctx, r *core.Rand, t *dyn.TypeOps, al signal.Allocator, 
 		return t.FromInt(n)
 	}
 	verifyOutstanding := func(step string) bool {
+		for pi, o := range private {
+			if o.b.RawLen() != o.slen || o.b.RawCap() != len(o.snap) {
+				c.Violate(inst+"|crosstalk", caseID, fmt.Sprintf("after %s the holder's private (grown-away) buffer %d changed shape", step, pi), detail())
+				return false
+			}
+			for i, w := range o.snap {
+				if g := o.b.RawAt(i); !g.Same(w) {
+					c.Violate(inst+"|crosstalk", caseID, fmt.Sprintf("after %s position %d of the holder's private (grown-away) buffer %d changed from %v to %v", step, i, pi, w, g), detail())
+					return false
+				}
+			}
+		}
 		for oi, o := range out {
 			if o.b.RawLen() != o.slen || o.b.RawCap() != len(o.snap) {
 				c.Violate(inst+"|crosstalk", caseID, fmt.Sprintf("after %s outstanding buffer %d changed shape", step, oi), detail())
@@ -282,6 +295,12 @@ func c10History(c *core.Ctx, r *core.Rand, t *dyn.TypeOps, al signal.Allocator, 
 			}
 			c.Obs("cells_checked_zero", int64(g.RawCap()))
 			o := &c10out{b: g, lo: g.RawBase(), hi: g.RawBase() + uintptr(g.RawCap()*t.SizeOf)}
+			for pi, other := range private {
+				if g.Same(other.b) || (o.lo < other.hi && other.lo < o.hi) {
+					c.Violate(inst+"|shared-storage", caseID, fmt.Sprintf("Get returned storage [%#x,%#x) overlapping the holder's private (grown-away) buffer %d [%#x,%#x)", o.lo, o.hi, pi, other.lo, other.hi), detail())
+					return
+				}
+			}
 			for oi, other := range out {
 				if g.Same(other.b) || (o.lo < other.hi && other.lo < o.hi) {
 					c.Violate(inst+"|shared-storage", caseID, fmt.Sprintf("Get returned storage [%#x,%#x) overlapping outstanding buffer %d [%#x,%#x)", o.lo, o.hi, oi, other.lo, other.hi), detail())
@@ -316,7 +335,31 @@ func c10History(c *core.Ctx, r *core.Rand, t *dyn.TypeOps, al signal.Allocator, 
 			b := o.b
 			var what string
 			p, msg := core.Guard(func() {
-				switch r.Intn(6) {
+				switch r.Intn(7) {
+				case 6:
+					// the holder takes a view from frame 0, then appends so much to
+					// the buffer itself that it moves to new storage; the holder goes
+					// on with (and later puts) the view, which still is the pool's
+					// storage; the grown buffer stays the holder's private property
+					if noDrop || al.Capacity == 0 || b.Len()%al.Channels != 0 {
+						what = "appendsample*1"
+						b.AppendSample(stamp())
+						break
+					}
+					v := b.Slice(0, r.Range(0, al.Capacity))
+					n := al.Capacity + 1 + r.Intn(3)
+					what = fmt.Sprintf("view:=slice(0,%d);append(%d frames: the buffer moves);continue-with-view", v.Length(), n)
+					src := t.Alloc(signal.Allocator{Channels: al.Channels, Length: n, Capacity: n})
+					for i := 0; i < src.Len(); i++ {
+						src.SetSample(i, stamp())
+					}
+					b.Append(src)
+					pr := &c10out{b: b, lo: b.RawBase(), hi: b.RawBase() + uintptr(b.RawCap()*t.SizeOf)}
+					c10Snap(pr)
+					private = append(private, pr)
+					delete(putHdr, b.HeaderAddr())
+					o.b = v
+					c.Obs("buffers_grown_away_while_a_view_from_frame_0_stays_checked_out", 1)
 				case 0:
 					k := r.Range(1, 5)
 					what = fmt.Sprintf("appendsample*%d", k)
